@@ -235,13 +235,17 @@ def new_enc():
     return enc
 
 
-def coq_case(xml_bytes, snap):
-    """-> (term, interning table) ; the term has type C05.case"""
+def coq_case(xml_bytes, snap, dom=False):
+    """-> (term, interning table) ; the term has type C05.case.  dom: add the minidom reading of the same bytes"""
     term, enc = xml2coq.encode_bytes(xml_bytes, new_enc())
+    second = 'None'
+    if dom:
+        enc.uid = 0
+        second = '(Some %s)' % xml2coq.encode_bytes(xml_bytes, enc, reader='dom')[0]
     ve = VEnc(enc)
     view = ve.doc(snap)
     numtab = ve.numtab()       # after the view: every token of the document is in enc.nums already
-    return '([%s], %s, %s)' % ('; '.join('%d' % c for c in numtab), term, view), enc.I.table()
+    return '([%s], %s, %s, %s)' % ('; '.join('%d' % c for c in numtab), term, second, view), enc.I.table()
 
 
 # --------------------------------------------------------------------------- running the implementation
@@ -413,7 +417,7 @@ def run(ctx):
         if 'snap' not in results[i]:
             continue
         try:
-            t, table = coq_case(allc[i]['xml'].encode('utf-8'), results[i]['snap'])
+            t, table = coq_case(allc[i]['xml'].encode('utf-8'), results[i]['snap'], dom=(len(terms) % 4 == 0))
         except Exception as e:  # noqa  (a snapshot the encoder cannot express: the direct oracle judges it)
             encode_errors.append({'case_index': i, 'error': 'snapshot not encodable as a Coq view: %r' % (e,)})
             continue
